@@ -301,6 +301,9 @@ def inDom (env : Env) : Nat → Ty → Val → Bool
         -- their encoded bits (what the decoder returns); every value fits a leaf next to a full-width label
         ks.length == vs.length && dictShapeOk v &&
         ks.all (fun kv => inDom env fuel k kv) && vs.all (fun x => inDom env fuel t x) &&
+        ks.all (fun kv => match encode env fuel k kv Builder.empty with
+          | .ok kb => kb.refs.isEmpty
+          | _ => false) &&
         (match mapMOutcome (fun kv => (encode env fuel k kv Builder.empty).bind fun kb => .ok kb.bits) ks with
           | .ok kbits => kbits.all (·.length == n) && strictlyAscending kbits
           | _ => false) &&
